@@ -3052,6 +3052,12 @@ impl Reference
 					// There are no pointers to array views.
 					current_type = ValueType::Arraylike { element_type };
 				}
+				if let ValueType::View { deref_type } = current_type
+				{
+					// The address of a view is the address of what it views.
+					taken_steps.push(ReferenceStep::Autoview);
+					current_type = *deref_type;
+				}
 				current_type = ValueType::Pointer {
 					deref_type: Box::new(current_type),
 				};
@@ -3174,6 +3180,14 @@ fn build_type_of_ref1(
 			}
 			ReferenceStep::Autoview =>
 			{
+				if took_address && !is_indirect
+				{
+					// The address that was taken is that of the viewee.
+					if let ValueType::Pointer { deref_type } = full_type
+					{
+						full_type = *deref_type;
+					}
+				}
 				full_type = ValueType::View {
 					deref_type: Box::new(full_type),
 				};
